@@ -143,6 +143,20 @@ class Eval:
         env.get(t.value.id) is self.node:
       # node.f = <value>: later reads see it
       self.node.cache[(t.attr, self.node.visited)] = v
+    elif isinstance(t, ast.Subscript) and isinstance(t.slice, ast.Slice):
+      base = self.ev(t.value, env)
+
+      def c(x):
+        if x is None:
+          return None
+        b_ = self.ev(x, env)
+        if isinstance(b_, tuple) and b_[0] == 'const' and isinstance(b_[1], int):
+          return b_[1]
+        raise Unsupported('slice bound %s' % core.norm(x))
+      if isinstance(base, list) and isinstance(v, list) and t.slice.step is None:
+        base[slice(c(t.slice.lower), c(t.slice.upper))] = v
+      else:
+        raise Unsupported('slice store')
     elif isinstance(t, ast.Subscript):
       base = self.ev(t.value, env)
       idx = self.ev(t.slice, env)
@@ -292,6 +306,11 @@ class Eval:
         return ('term', name) + tuple(vals)
       if name in self.passthrough and vals:
         return vals[0]
+    # a node of the user grammar built by hand: the operands it holds stay
+    # under a *native* operator (nobody converts a node created after the visit)
+    if d in ('ast.BoolOp', 'ast.Compare', 'ast.UnaryOp', 'ast.BinOp', 'ast.IfExp'):
+      vals = [self.ev(a, env) for a in args] + [self.ev(k.value, env) for k in e.keywords]
+      return ('term', 'native:' + d[4:]) + tuple(vals)
     raise Unsupported('call %s' % core.norm(e)[:60])
 
 
